@@ -629,3 +629,141 @@ package saml2
 //@   ensures [C19] slo: err == nil ==> len(md.SPSSODescriptor.SingleLogoutServices) == 1
 //@        && md.SPSSODescriptor.SingleLogoutServices[0].Binding == BindingHttpPost
 //@        && md.SPSSODescriptor.SingleLogoutServices[0].Location == sp.ServiceProviderSLOURL
+
+// ---------------------------------------------------------------------------
+// Outgoing messages (C13 placement, C15 content and order, C18 identifiers)
+// ---------------------------------------------------------------------------
+
+//@ pure func HasAttr(e *etree.Element, name string, value string) bool {
+//@   return exists i int :: 0 <= i && i < len(e.Attr) && e.Attr[i].$name == name && e.Attr[i].Value == value
+//@ }
+//@ pure func NoAttr(e *etree.Element, name string) bool {
+//@   return forall i int :: 0 <= i && i < len(e.Attr) ==> e.Attr[i].$name != name
+//@ }
+//@ pure func ChildEl(e *etree.Element, i int) *etree.Element {
+//@   return e.Child[i].(*etree.Element)
+//@ }
+//@ pure func IsEl(e *etree.Element, i int, qname string) bool {
+//@   return e.Child[i] is *etree.Element && ChildEl(e, i) != nil && ChildEl(e, i).$qname == qname
+//@ }
+//@ pure func IssuerText(sp *SAMLServiceProvider) string {
+//@   return sp.ServiceProviderIssuer != "" ? sp.ServiceProviderIssuer : sp.IdentityProviderIssuer
+//@ }
+//@ pure func ProtocolRoot(e *etree.Element, tag string) bool {
+//@   return e.Space == "samlp" && e.Tag == tag
+//@       && HasAttr(e, "xmlns:samlp", "urn:oasis:names:tc:SAML:2.0:protocol") && HasAttr(e, "xmlns:saml", "urn:oasis:names:tc:SAML:2.0:assertion")
+//@       && HasAttr(e, "Version", "2.0")
+//@ }
+//@ pure func IssueInstantOK(sp *SAMLServiceProvider, e *etree.Element) bool {
+//@   return exists t time.Time :: isUTC(t) && instant(t) == now(sp.Clock) && HasAttr(e, "IssueInstant", formatted(t, issueInstantFormat))
+//@ }
+// Signature placement: the signed copy has the Issuer copy first, then the signature over the original, then the rest.
+//@ pure func SignedCopy(sp *SAMLServiceProvider, el *etree.Element, ret *etree.Element, ctx *dsig.SigningContext) bool {
+//@   return ret != nil && len(ret.Child) == len(el.Child) + 1
+//@       && ret.Child[0] == copyTok(el.Child[0])
+//@       && ret.Child[1] is *etree.Element && ChildEl(ret, 1) != nil && signedOver(ChildEl(ret, 1)) == el && signedWith(ChildEl(ret, 1)) == ctx
+//@       && (forall i int :: 1 <= i && i < len(el.Child) ==> ret.Child[i + 1] == copyTok(el.Child[i]))
+//@       && ret.Space == el.Space && ret.Tag == el.Tag && ret.Attr == el.Attr
+//@ }
+//@ pure func SigningReady(sp *SAMLServiceProvider) bool {
+//@   return SPValid(sp) && sp.signingContextMu.$mu == 0 && HasSignKey(sp)
+//@ }
+
+//@ func (sp *SAMLServiceProvider) SignAuthnRequest(el *etree.Element) (ret *etree.Element, err error)
+//@   requires SigningReady(sp) && el != nil && len(el.Child) >= 1
+//@   assigns sp.signingContext, sp.signingContextMu.$mu
+//@   fresh ret when err == nil
+//@   ensures [C13] placement: err == nil ==> SignedCopy(sp, el, ret, sp.signingContext)
+//@   ensures [C13] detached: err == nil ==> ret.parent == nil
+//@   ensures [C13] fail: err != nil ==> ret == nil
+//@   ensures [C17] unlocked: sp.signingContextMu.$mu == 0
+
+//@ func (sp *SAMLServiceProvider) SignLogoutRequest(el *etree.Element) (ret *etree.Element, err error)
+//@   requires SigningReady(sp) && el != nil && len(el.Child) >= 1
+//@   assigns sp.signingContext, sp.signingContextMu.$mu
+//@   fresh ret when err == nil
+//@   ensures [C13] placement: err == nil ==> SignedCopy(sp, el, ret, sp.signingContext)
+//@   ensures [C13] detached: err == nil ==> ret.parent == nil
+//@   ensures [C13] fail: err != nil ==> ret == nil
+//@   ensures [C17] unlocked: sp.signingContextMu.$mu == 0
+
+//@ func (sp *SAMLServiceProvider) SignLogoutResponse(el *etree.Element) (ret *etree.Element, err error)
+//@   requires SigningReady(sp) && el != nil && len(el.Child) >= 1
+//@   assigns sp.signingContext, sp.signingContextMu.$mu
+//@   fresh ret when err == nil
+//@   ensures [C13] placement: err == nil ==> SignedCopy(sp, el, ret, sp.signingContext)
+//@   ensures [C13] detached: err == nil ==> ret.parent == nil
+//@   ensures [C13] fail: err != nil ==> ret == nil
+//@   ensures [C17] unlocked: sp.signingContextMu.$mu == 0
+
+//@ func (sp *SAMLServiceProvider) buildAuthnRequest(includeSig bool) (doc *etree.Document, err error)
+//@   requires SPValid(sp) && sp.signingContextMu.$mu == 0 && ((sp.SignAuthnRequests && includeSig) ==> HasSignKey(sp))
+//@   assigns sp.signingContext, sp.signingContextMu.$mu
+//@   fresh doc when err == nil
+//@   ensures [C15] xor: (doc != nil) != (err != nil)
+//@   exit [C15] root: ProtocolRoot(authnRequest, "AuthnRequest")
+//@   exit [C15, C18] id: HasAttr(authnRequest, "ID", "_" + uuidStr(*arId)) && fresh(arId)
+//@   exit [C15] instant: IssueInstantOK(sp, authnRequest)
+//@   exit [C15] addressing: HasAttr(authnRequest, "Destination", sp.IdentityProviderSSOURL)
+//@        && HasAttr(authnRequest, "AssertionConsumerServiceURL", sp.AssertionConsumerServiceURL)
+//@        && HasAttr(authnRequest, "ProtocolBinding", "urn:oasis:names:tc:SAML:2.0:bindings:HTTP-POST")
+//@   exit [C15] force: (sp.ForceAuthn ==> HasAttr(authnRequest, "ForceAuthn", "true")) && (!sp.ForceAuthn ==> NoAttr(authnRequest, "ForceAuthn"))
+//@   exit [C15] passive: (sp.IsPassive ==> HasAttr(authnRequest, "IsPassive", "true")) && (!sp.IsPassive ==> NoAttr(authnRequest, "IsPassive"))
+//@   exit [C15] nattr: len(authnRequest.Attr) == 8 + (sp.ForceAuthn ? 1 : 0) + (sp.IsPassive ? 1 : 0)
+//@   exit [C15] order: len(authnRequest.Child) == 2 + (sp.RequestedAuthnContext != nil ? 1 : 0)
+//@        && IsEl(authnRequest, 0, "saml:Issuer") && IsEl(authnRequest, 1, "samlp:NameIDPolicy")
+//@   exit [C15] issuer: ChildEl(authnRequest, 0).$text == IssuerText(sp)
+//@   exit [C15] policy: HasAttr(ChildEl(authnRequest, 1), "AllowCreate", "true")
+//@        && (sp.NameIdFormat != "" ==> HasAttr(ChildEl(authnRequest, 1), "Format", sp.NameIdFormat) && len(ChildEl(authnRequest, 1).Attr) == 2)
+//@        && (sp.NameIdFormat == "" ==> len(ChildEl(authnRequest, 1).Attr) == 1)
+//@   exit [C15] context: sp.RequestedAuthnContext != nil ==> IsEl(authnRequest, 2, "samlp:RequestedAuthnContext")
+//@        && HasAttr(ChildEl(authnRequest, 2), "Comparison", sp.RequestedAuthnContext.Comparison)
+//@        && len(ChildEl(authnRequest, 2).Child) == len(sp.RequestedAuthnContext.Contexts)
+//@        && forall j int :: 0 <= j && j < len(sp.RequestedAuthnContext.Contexts) ==>
+//@             IsEl(ChildEl(authnRequest, 2), j, "saml:AuthnContextClassRef")
+//@             && ChildEl(ChildEl(authnRequest, 2), j).$text == sp.RequestedAuthnContext.Contexts[j]
+//@   exit [C15, C13] unsigned: err == nil && !(sp.SignAuthnRequests && includeSig) ==> doc.$root == authnRequest
+//@   exit [C15, C13] signed: err == nil && sp.SignAuthnRequests && includeSig ==> doc.$root == signed && SignedCopy(sp, authnRequest, signed, sp.signingContext)
+//@   loop 0
+//@     invariant [C15] count: len(requestedAuthnContext.Child) == $i
+//@     invariant [C15] refs: forall j int :: 0 <= j && j < $i ==>
+//@          IsEl(requestedAuthnContext, j, "saml:AuthnContextClassRef") && ChildEl(requestedAuthnContext, j).$text == sp.RequestedAuthnContext.Contexts[j]
+//@          && allocated(ChildEl(requestedAuthnContext, j))
+//@     invariant [C15] cmp: HasAttr(requestedAuthnContext, "Comparison", sp.RequestedAuthnContext.Comparison)
+
+//@ func (sp *SAMLServiceProvider) buildLogoutRequest(includeSig bool, nameID string, sessionIndex string) (doc *etree.Document, err error)
+//@   requires SPValid(sp) && sp.signingContextMu.$mu == 0 && (includeSig ==> HasSignKey(sp))
+//@   assigns sp.signingContext, sp.signingContextMu.$mu
+//@   fresh doc when err == nil
+//@   ensures [C15] xor: (doc != nil) != (err != nil)
+//@   exit [C15] root: ProtocolRoot(logoutRequest, "LogoutRequest")
+//@   exit [C15, C18] id: HasAttr(logoutRequest, "ID", "_" + uuidStr(*arId)) && fresh(arId)
+//@   exit [C15] instant: IssueInstantOK(sp, logoutRequest)
+//@   exit [C15] addressing: HasAttr(logoutRequest, "Destination", sp.IdentityProviderSLOURL)
+//@   exit [C15] nattr: len(logoutRequest.Attr) == 6
+//@   exit [C15] order: len(logoutRequest.Child) == 3 && IsEl(logoutRequest, 0, "saml:Issuer")
+//@        && IsEl(logoutRequest, 1, "saml:NameID") && IsEl(logoutRequest, 2, "samlp:SessionIndex")
+//@   exit [C15] issuer: ChildEl(logoutRequest, 0).$text == IssuerText(sp)
+//@   exit [C15] nameid: ChildEl(logoutRequest, 1).$text == nameID && HasAttr(ChildEl(logoutRequest, 1), "Format", sp.NameIdFormat)
+//@        && len(ChildEl(logoutRequest, 1).Attr) == 1
+//@   exit [C15] session: ChildEl(logoutRequest, 2).$text == sessionIndex && len(ChildEl(logoutRequest, 2).Attr) == 0
+//@   exit [C15, C13] unsigned: err == nil && !includeSig ==> doc.$root == logoutRequest
+//@   exit [C15, C13] signed: err == nil && includeSig ==> doc.$root == signed && SignedCopy(sp, logoutRequest, signed, sp.signingContext)
+
+//@ func (sp *SAMLServiceProvider) buildLogoutResponse(statusCodeValue string, reqID string, includeSig bool) (doc *etree.Document, err error)
+//@   requires SPValid(sp) && sp.signingContextMu.$mu == 0 && (includeSig ==> HasSignKey(sp))
+//@   assigns sp.signingContext, sp.signingContextMu.$mu
+//@   fresh doc when err == nil
+//@   ensures [C15] xor: (doc != nil) != (err != nil)
+//@   exit [C15] root: ProtocolRoot(logoutResponse, "LogoutResponse")
+//@   exit [C15, C18] id: HasAttr(logoutResponse, "ID", "_" + uuidStr(*arId)) && fresh(arId)
+//@   exit [C15] instant: IssueInstantOK(sp, logoutResponse)
+//@   exit [C15] addressing: HasAttr(logoutResponse, "Destination", sp.IdentityProviderSLOURL) && HasAttr(logoutResponse, "InResponseTo", reqID)
+//@   exit [C15] nattr: len(logoutResponse.Attr) == 7
+//@   exit [C15] order: len(logoutResponse.Child) == 2 && IsEl(logoutResponse, 0, "saml:Issuer") && IsEl(logoutResponse, 1, "samlp:Status")
+//@   exit [C15] issuer: ChildEl(logoutResponse, 0).$text == IssuerText(sp)
+//@   exit [C15] status: len(ChildEl(logoutResponse, 1).Child) == 1 && IsEl(ChildEl(logoutResponse, 1), 0, "samlp:StatusCode")
+//@        && HasAttr(ChildEl(ChildEl(logoutResponse, 1), 0), "Value", statusCodeValue)
+//@        && len(ChildEl(ChildEl(logoutResponse, 1), 0).Attr) == 1
+//@   exit [C15, C13] unsigned: err == nil && !includeSig ==> doc.$root == logoutResponse
+//@   exit [C15, C13] signed: err == nil && includeSig ==> doc.$root == signed && SignedCopy(sp, logoutResponse, signed, sp.signingContext)
